@@ -10,6 +10,9 @@ package breaker
 //                      grid; the breaker's own window is read after EVERY call.
 //   breaker-parallel   truly overlapping calls from several goroutines inside one
 //                      bubble; accounting invariant over the observed history.
+//   breaker-stress     real parallelism without a bubble: exact accounting after
+//                      G goroutines x K calls (judged when the run took < 5 s).
+// The benign-outcome tables / runs live in the other directories of harness/C01.
 
 import (
 	"errors"
